@@ -12,9 +12,15 @@ PRIMS = {
     "u64": ("u64", 8, "Nat", 64), "usize": ("usize", 8, "Nat", 64), "u128": ("u128", 16, "Nat", 128),
     "i64": ("i64", 8, "Nat", 64), "bool": ("bool", 1, "Nat", 1), "char": ("char", 4, "Nat", 21),
     "f64": ("f64", 8, "F64", 64), "unit": ("()", 0, "Unit", 0),
+    # further types the crate mirrors; they travel as the bit pattern of their width (Duration: nanoseconds below 2^64)
+    "i8": ("i8", 1, "Nat", 8), "i16": ("i16", 2, "Nat", 16), "i32": ("i32", 4, "Nat", 32), "i128": ("i128", 16, "Nat", 128),
+    "isize": ("isize", 8, "Nat", 64), "f32": ("f32", 4, "Nat", 32), "duration": ("std::time::Duration", 16, "Nat", 64),
 }
+# no total order that is the numeric order of the bit pattern / no plain-number JSON form
+SIGNED_OR_FLOAT = ("f64", "i64", "i8", "i16", "i32", "i128", "isize", "f32")
+NO_PLAIN_JSON = ("i8", "i16", "i32", "i128", "isize", "f32", "duration")
 ALIGN = {"u8": 1, "u16": 2, "u32": 4, "u64": 8, "usize": 8, "u128": 16, "i64": 8, "bool": 1,
-         "char": 4, "f64": 8, "unit": 1}
+         "char": 4, "f64": 8, "unit": 1, "i8": 1, "i16": 2, "i32": 4, "i128": 16, "isize": 8, "f32": 4, "duration": 8}
 
 
 class Term:
@@ -492,7 +498,8 @@ def caps(t):
     """which optional operations the Rust type offers"""
     coded = t.has("huffman") or t.has("codec")
     return {
-        "serde": not coded,
+        "serde": not coded and not any(t.has(x) for x in NO_PLAIN_JSON),
+        "serde_model": not coded,      # the model serialises these too; the harness cannot compare their JSON
         "heap": not t.has("huffman"),
         "clone": not t.has("codec"),
         "reserve_items": not (t.has("columns") or t.has("collapse") or coded),
